@@ -195,6 +195,7 @@ var c14Observers = []c14Named{
 	{"current_output", []string{"findall(A, (current_output(S), stream_property(S, alias(A))), L)."}},
 	{"write", []string{"write(hello_out), nl."}},
 	{"read", []string{"catch(read(X), error(E, _), true)."}},
+	{"get_char", []string{"catch(get_char(C), error(E, _), true)."}},
 	{"open files", []string{"(setof(M, S^F^(stream_property(S, mode(M)), stream_property(S, file_name(F))), L) -> true ; '='(L, []))."}},
 }
 
@@ -221,6 +222,10 @@ var c14Mutators = []c14Named{
 	{"open+close alias", []string{"open('w2_#T#.txt', write, S, [alias(iso_alias)]), close(S)."}},
 	{"set_input", []string{"open('r.txt', read, S), set_input(S)."}},
 	{"set_output", []string{"open('w3_#T#.txt', write, S), set_output(S)."}},
+	// a stream that is closed while it is the current input stays reachable: reading it again must not touch anything that
+	// belongs to another interpreter (buffers handed back on close)
+	{"set_input, read, close", []string{"open('r.txt', read, S), set_input(S), get_char(_), close(S)."}},
+	{"open, read, close, read again", []string{"open('r.txt', read, S), get_char(S, _), close(S), catch(get_char(S, _), _, true), catch(peek_char(S, _), _, true)."}},
 }
 
 func c14Steps(ss []string) []proto.ConcStep {
